@@ -1,7 +1,8 @@
 package main
 
 // Table "ResolverSkeleton" (C02): one row per resolve*Ref routine of openapi3/loader.go, one per walk helper
-// (resolve*Refs) and one for ResolveRefsIn ("Document"):
+// (resolve*Refs), one for ResolveRefsIn ("Document"), and one "fn:<name>" row per function the one-step layer of
+// the model was written from (its text, or a digest of its text):
 //   steps — the statements of the `if ref := X.Ref; ref != "" { … }` block (and the isEmpty test before it),
 //           statement by statement in source order, each classified by its exact (whitespace-normalised) text
 //           modulo the kind name and the name of the element variable;
@@ -12,6 +13,8 @@ package main
 
 import (
 	"bytes"
+	"crypto/sha256"
+	"encoding/hex"
 	"fmt"
 	"go/ast"
 	"go/parser"
@@ -116,7 +119,17 @@ var rsFragment = []rsPat{
 	{q(`‹C›.setRefPath(resolved.RefPath())`), "setRefPath:target"},
 }
 
+// the functions the model's one-step layer (`stepGo`, `docLoadGo`) and visit bookkeeping were written from: the two
+// shortest as text, the others as a digest of their signature and body (comments and layout do not count)
+var rsFrozenText = map[string]bool{"unescapeRefString": true, "isSingleRefElement": true}
+var rsFrozenHash = map[string]bool{"resolveComponent": true, "drillIntoField": true, "resolveRefAndDocument": true, "resolveRef": true,
+	"resolveRefPath": true, "resolvePathWithRef": true, "resolvePath": true, "join": true, "loadSingleElementFromURI": true,
+	"loadFromURIInternal": true, "loadFromDataWithPathInternal": true, "visitRef": true, "unvisitRef": true, "shouldVisitRef": true}
+
 func rsIsResolverName(n string) bool {
+	if rsFrozenText[n] || rsFrozenHash[n] {
+		return false
+	}
 	return strings.HasPrefix(n, "resolve") && (strings.HasSuffix(n, "Ref") || strings.HasSuffix(n, "Refs")) && n != "resolveRef"
 }
 
@@ -266,10 +279,13 @@ func extractResolverSkeleton(repo string) (string, error) {
 	var rows []rsRow
 	for _, d := range f.Decls {
 		fd, ok := d.(*ast.FuncDecl)
-		if !ok || fd.Recv == nil || fd.Body == nil {
+		if !ok || fd.Body == nil {
 			continue
 		}
 		name := fd.Name.Name
+		if fd.Recv == nil && !rsFrozenText[name] && !rsFrozenHash[name] {
+			continue
+		}
 		switch {
 		case name == "ResolveRefsIn":
 			r := rsRow{name: "Document"}
@@ -281,6 +297,11 @@ func extractResolverSkeleton(repo string) (string, error) {
 			rows = append(rows, r)
 		case rsIsResolverName(name):
 			rows = append(rows, rsResolver(fset, fd))
+		case rsFrozenText[name]:
+			rows = append(rows, rsRow{name: "fn:" + name, steps: []string{rsText(fset, fd.Body)}})
+		case rsFrozenHash[name]:
+			sum := sha256.Sum256([]byte(rsText(fset, fd.Type) + " " + rsText(fset, fd.Body)))
+			rows = append(rows, rsRow{name: "fn:" + name, steps: []string{"sha256:" + hex.EncodeToString(sum[:8])}})
 		}
 	}
 	sort.Slice(rows, func(i, j int) bool { return rows[i].name < rows[j].name })
